@@ -60,7 +60,7 @@ def msgType (v : String) : String := if v ∈ messageTypes then v else "normal"
 /-- one iteration of the attribute loop of `NewIQ` / `NewMessage` / `NewPresence` -/
 def newStep (parse : String → Option String) (k : Kind) (n : Name) (v : Stz) (a : Attr) : Option Stz :=
   if a.name.loc = "lang" ∧ a.name.space = nsXML then some { v with lang := a.value }
-  else if a.name.space ≠ "" ∧ a.name.space ≠ n.space then some v
+  else if a.name.space ≠ "" then some v   -- only unqualified attributes are the stanza's own (fix2-serve)
   else if a.name.loc = "id" then some { v with id := a.value }
   else if a.name.loc = "to" then
     if a.value = "" then some v else (parse a.value).map fun j => { v with to := j }
